@@ -336,6 +336,12 @@ def projx : P String := do
   let _v ← P.xs; P.bar; let _out ← P.xs; P.eof
   return "ok trivial outside_quantifier"
 
+/-- `inst <what> 0|1` : a documented overload that the harness could (1) or could not (0) instantiate -/
+def inst : P String := do
+  let what ← P.tok; let ok ← P.bool; P.eof
+  let v : Verdict := { tag := "trivial" }
+  return (v.failIf (!ok) s!"sampleDirichletDistribution does_not_instantiate {what}").render
+
 def handle (toks : List String) : String :=
   let r := match toks with
     | "dense" :: rest => P.run dense rest
@@ -355,6 +361,7 @@ def handle (toks : List String) : String :=
     | "dir" :: rest => P.run dir rest
     | "beta" :: rest => P.run beta rest
     | "projx" :: rest => P.run projx rest
+    | "inst" :: rest => P.run inst rest
     | _ => none
   r.getD "bad-op"
 
